@@ -11,6 +11,7 @@ class Baton:
         self.by_ident = {}
         self.back = threading.Semaphore(0)
         self.effective = []
+        self.steps = []                 # (thread id, the yield point it was at, the lock concerned) for every schedule entry
 
     class T:
         def __init__(self, tid, fn):
@@ -66,6 +67,7 @@ class Baton:
         for tid in schedule:
             t = self.ts.get(tid)
             self.effective.append(tid)
+            self.steps.append((tid, t.at if t is not None else None, t.lock if t is not None else None))
             if t is None or not self._runnable(t):
                 continue
             self._step(t)
@@ -79,6 +81,7 @@ class Baton:
             if not cand:
                 raise RuntimeError("baton: deadlock")
             self.effective.append(cand[0])
+            self.steps.append((cand[0], self.ts[cand[0]].at, self.ts[cand[0]].lock))
             self._step(self.ts[cand[0]])
         for t in self.ts.values():
             t.thread.join(5)
